@@ -133,10 +133,15 @@ def arith_probes(g, frame, pool, count, start):
     if strs:
         e, t, gtag = strs[start % len(strs)]
         out.append((f'{e} + "z"', f'arith,frame={frame},op=ADD,lt=STRING,rt=STRING-lit,l={gtag}'))
-        ops = ['=', '<', '>', '<>', '<=', '>=']
-        o = ops[start % 6]
-        nm = dict((s, n) for s, n in BINOPS)[o]
-        out.append((f'{e} {o} "m"', f'arith,frame={frame},op={nm},lt=STRING,rt=STRING-lit,l={gtag}'))
+        # comparisons: not on constants (a constant comparison is folded by the
+        # compiler itself and the folder raises ValueError at -O1/-O2: D03, property C02/C06)
+        vstrs = [p for p in strs if not p[2].startswith('const')]
+        if vstrs:
+            e, t, gtag = vstrs[start % len(vstrs)]
+            ops = ['=', '<', '>', '<>', '<=', '>=']
+            o = ops[start % 6]
+            nm = dict((s, n) for s, n in BINOPS)[o]
+            out.append((f'{e} {o} "m"', f'arith,frame={frame},op={nm},lt=STRING,rt=STRING-lit,l={gtag}'))
     return out
 
 
@@ -278,6 +283,7 @@ def program(k):
             ('pa + 1', f'error,frame={f},record-in-arithmetic', 'error'),
             ('via.x + 1', f'error,frame={f},field-of-scalar-in-arithmetic', 'error'),
             ('pa.zz + 1', f'error,frame={f},unknown-field-in-arithmetic', 'error'),
+            ('2 ^ -1', f'error,frame={f},negative-exponent-literal', 'error'),
         ]
         P('via', f'scalar,frame={f},scope=local,decl=as,ty=INTEGER')
         P('vla', f'scalar,frame={f},scope=local,decl=as,ty=LONG')
@@ -338,6 +344,8 @@ def program(k):
         if phase == 1:
             P('(via MOD 10 + 1) * 2 - cia% MOD 7', f'arith,frame={f},op=nested,lt=INTEGER,rt=INTEGER,l=local,r=const')
             P('via > 0 AND vla > 0', f'arith,frame={f},op=AND,lt=CMP,rt=CMP,l=local,r=local')
+            P('ABS(via)', f'call,frame={f},fn=ABS')
+            P('LEN(vta)', f'call,frame={f},fn=LEN')
         w = (g.k * 5) % len(errs)
         g.flush(10 if phase == 1 else 7, '', (errs + errs)[w:w + 6] if phase == 1 else ())
 
@@ -473,7 +481,7 @@ def program(k):
     g.cand('fl', 'scalar,frame=fun1,scope=local,decl=as,ty=LONG,mainview=absent')
     g.cand('fz$', 'scalar,frame=fun1,scope=local,decl=suffix,ty=STRING,mainview=absent')
     g.cand('fl + fx%', 'arith,frame=fun1,op=ADD,lt=LONG,rt=INTEGER,l=local-as,r=param-ref')
-    g.cand('gia% * 2', 'arith,frame=fun1,op=MUL,lt=INTEGER,rt=INTEGER-lit,l=shared,r=lit')
+    g.cand('(gia% MOD 100) * 2', 'arith,frame=fun1,op=MUL,lt=INTEGER-mod,rt=INTEGER-lit,l=shared,r=lit')
     g.flush(3, '  ')
     g.emit('END FUNCTION')
     halted = ['via', 'gia%', 'cia%', 'pa.x', f'aa%({b1[0]})', '1 + 1', 'nosuch']
